@@ -306,7 +306,9 @@ Fsck(m) ==
            dirN == IF wipe THEN [leaves |-> lv1, index |-> <<>>, indexed |-> FALSE]
                    ELSE IF hashfails THEN [leaves |-> lv1, index |-> <<>>, indexed |-> FALSE]      \* index cleared if there was one; no rebuild
                    ELSE IF doRehash THEN RehashDir(lv1, cfm) ELSE [leaves |-> lv1, index |-> index, indexed |-> indexed]
-           doRemap == (m = "b2e" /\ kind = "ind") \/ (m # "fo" /\ CanCollapse)
+           \* "extent tree could be shorter.  Optimize?" is answered yes by -y, is not asked with -E fixes_only, and is IGNORED by
+           \* preen (PR_1E_CAN_COLLAPSE_EXTENT_TREE carries PR_PREEN_NO)
+           doRemap == (m = "b2e" /\ kind = "ind") \/ (m \notin {"fo", "p"} /\ CanCollapse)
            mapN == IF wipe THEN [exts |-> <<>>, kind |-> kind, meta |-> {}]
                    ELSE IF doRemap THEN Rebuild(exts) ELSE [exts |-> exts, kind |-> kind, meta |-> meta]
            sbstuck == DevSbCsumRefuses /\ "sb" \in badcsum
